@@ -234,12 +234,19 @@ func c16Raw(emit func(c16Case)) {
 		{"json", `{"items":[{"id":1,"n":"a"},{"n":"b"},{"id":3,"n":"c"}],"k":1}`, `{"items":[{"id":7,"n":"a"},{"n":"b"},{"id":"nine","n":"c"}],"k":1}`, "items.#.id"},
 		{"sjson", `{"items":[{"n":"b"},{"id":3},{"id":4}]}`, `{"items":[{"n":"b"},{"id":5},{"id":null}]}`, "items.#.id"},
 		{"json", `{"items":[{"id":1},{"id":2},{}]}`, `{"items":[{"id":2},{"id":1},{}]}`, "items.#.id"},
+		{"json", `{"items":[{"id":1},{"id":2}],"users":[{"token":"a","n":1},{"token":"b","n":2}],"k":"plain"}`, `{"items":[{"id":3},{"id":4}],"users":[{"token":"c","n":1},{"token":"d","n":2}],"k":"other"}`, "items.#.id users.#.token k"},
+		{"sjson", `{"a":[{"x":1}],"b":[{"y":2}],"c":[{"z":3}]}`, `{"a":[{"x":9}],"b":[{"y":8}],"c":[{"z":7}]}`, "a.#.x b.#.y c.#.z"},
 	} {
 		for _, kind := range []string{"rawany", "rawany-optional", "rawcustom", "rawcustom-optional"} {
+			if strings.Contains(p.path, " ") && strings.HasPrefix(kind, "rawcustom") {
+				continue // Custom takes one path
+			}
 			emit(c16Case{API: p.api, Kind: kind, Text: p.a, Alt: p.b, Path: p.path, Doc: -1})
 		}
 	}
 }
+
+var c16Blob = strings.Repeat("QUJDREVGR0hJSktMTU5PUA", 3200)
 
 // c16RawDiffer: pairs that differ at an UNMASKED place only (white space that is content): they must not pass against each other.
 func c16RawDiffer(emit func(c16Case)) {
@@ -248,6 +255,9 @@ func c16RawDiffer(emit func(c16Case)) {
 		{"id: 1\nnotes: |\n  first\t\n  second\n", "id: 1\nnotes: |\n  first\n  second\n", "$.id"},
 		{"id: 1\nnotes: \"a  \"\n", "id: 1\nnotes: \"a\"\n", "$.id"},
 		{"id: 1\nnotes: |\n  x\n\n  y\n", "id: 1\nnotes: |\n  x\n  y\n", "$.id"},
+		// a physical line of 70 KB (an inlined blob) in front of the place where the documents differ
+		{"id: 1\nblob: " + c16Blob + "\nstatus: active\n", "id: 2\nblob: " + c16Blob + "\nstatus: suspended\n", "$.id"},
+		{"id: 1\nblob: " + c16Blob + "\nstatus: active\n", "id: 1\nblob: " + c16Blob + "x\nstatus: active\n", "$.id"},
 	} {
 		for _, kind := range []string{"rawdiffer-any", "rawdiffer-none"} {
 			emit(c16Case{API: "yaml", Kind: kind, Text: p[0], Alt: p[1], Path: p[2], Doc: -1})
@@ -288,7 +298,7 @@ func c16RunRaw(c *vfCtx, cs c16Case) {
 	optional := strings.HasSuffix(cs.Kind, "-optional")
 	mk := func() (match.JSONMatcher, match.YAMLMatcher) {
 		if strings.HasPrefix(cs.Kind, "rawany") {
-			m := match.Any(cs.Path).ErrOnMissingPath(!optional)
+			m := match.Any(strings.Fields(cs.Path)...).ErrOnMissingPath(!optional) // (several paths of ONE matcher are separated by a blank)
 			return m, m
 		}
 		m := match.Custom(cs.Path, func(any) (any, error) { return "<custom>", nil }).ErrOnMissingPath(!optional)
